@@ -235,6 +235,12 @@ func (s *Sim) Gen(r *PRNG) Step {
 				}
 			}
 		}
+		if s.Cfg.FaultOnlyStatus && k == "release" {
+			pct = 0
+			if ws := s.ParkedWorkers(); len(ws) > 0 && ws[st.A%len(ws)].pending.Sub == "status" {
+				pct = 50
+			}
+		}
 		if r.Intn(100) < pct {
 			st.B = s.genFault(r)
 			st.C = r.Intn(4)
